@@ -174,6 +174,16 @@ func orderType(v, v2 *v1proto.SQLiteValue) (*v1proto.SQLiteValue, *v1proto.SQLit
 	return v2, v, true
 }
 
+// SameKey tells if two values, as SQLite hands them over, are the same key: the same
+// storage class and equal.
+func SameKey(a, b interface{}) bool {
+	if a == nil || b == nil {
+		return a == nil && b == nil
+	}
+	ka, kb := NewKey(a), NewKey(b)
+	return ka.Type == kb.Type && ka.Order(kb) == 0
+}
+
 func typeIndex(v *v1proto.SQLiteValue) int {
 	if v.Type == v1proto.Type_INT {
 		return 0
